@@ -33,11 +33,27 @@ class RegexRule(FactRule):
 
     def field_of(self, e):
         f = last_field(e)
-        return f if f in REGEX_FIELDS else None
+        if f in REGEX_FIELDS:
+            return f
+        # the object behind an out-parameter  regex_t **reg  of an allocating helper
+        se = strip(e)
+        while se is not None and se.k == 'cast' and se.a:
+            se = strip(se.a[0])
+        if se is not None and se.k == 'un' and se.op == '*':
+            b = strip(se.a[0])
+            if b is not None and b.k == 'var' and b.dk == 'ParmVarDecl' and 'regex_t **' in (b.t or ''):
+                return '*' + b.op
+        return None
+
+    def field_of_arg(self, a):
+        sa = strip(a)
+        if sa is not None and sa.k == 'un' and sa.op == '&':
+            return self.field_of(sa.a[0])
+        return self.field_of(a)
 
     def on_assign(self, ctx, lhs, rhs, op, value, ts):
         f = self.field_of(lhs)
-        if f and strip(lhs).k == 'mem' and op == '=':
+        if f and strip(lhs).k in ('mem', 'un') and op == '=':
             ts = frozenset(x for x in ts if not (isinstance(x, tuple) and x[0] == 'rx' and x[1] == f))
             r = strip(rhs) if rhs is not None else None
             if r is not None and r.k == 'call' and callee_name(r) in ALLOCS:
@@ -52,11 +68,19 @@ class RegexRule(FactRule):
                 continue
             f = None
             for a in ex.a[1:]:
-                f = f or self.field_of(a)
+                f = f or self.field_of_arg(a)
             if f is None:
                 continue
-            if 'create_regex' in names and after & ~(P1 | POS) == 0:
-                ts = ts | frozenset([('rx', f, 'comp')])
+            from ..rules.submatch import regex_compilers
+            wrappers = set(regex_compilers(self.prog)) - set(['regcomp'])
+            if names & wrappers:
+                if after & ~(P1 | POS) == 0:
+                    ts = ts | frozenset([('rx', f, 'comp')])
+                elif after == Z and any(sa is not None and sa.k == 'un' and sa.op == '&' for sa in
+                                        [strip(a) for a in ex.a[1:]]):
+                    # an allocating helper (takes the field by address) failed: it leaves the field NULL, which is
+                    # checked on the helper itself
+                    ts = frozenset(x for x in ts if not (isinstance(x, tuple) and x[0] == 'rx' and x[1] == f))
             if 'regcomp' in names and after == Z:
                 ts = ts | frozenset([('rx', f, 'comp')])
         # allocation failed: the field is NULL on the false edge of a truthiness test
@@ -241,6 +265,15 @@ def run(ctx):
             for (l, r, op, n) in assigned_fields(fn):
                 if last_field(l) in REGEX_FIELDS and r is not None and strip(r).k == 'call':
                     writers.add(fn.qname)
+            # allocating helpers: *reg = zmalloc(...) through a regex_t ** parameter
+            from ..program import all_exprs as _ae
+            for ex in _ae(fn):
+                for nd in walk(ex):
+                    if nd.k == 'bin' and nd.op == '=' and strip(nd.a[0]).k == 'un' and strip(nd.a[0]).op == '*':
+                        b = strip(strip(nd.a[0]).a[0])
+                        if b is not None and b.k == 'var' and 'regex_t **' in (b.t or '') and \
+                                strip(nd.a[1]) is not None and strip(nd.a[1]).k == 'call':
+                            writers.add(fn.qname)
         users = set()
         for fn in prog.lib_funcs():
             if calls_of(fn, ('regexec', 'regfree')):
